@@ -158,15 +158,25 @@ Definition simple_model (tr : list tok) : list tok :=
   | SVRej i => [tag "REJECT"; tnat i]
   end.
 
-(* SPEC on the history: Export is never invoked while a previous Export is still running; exporter shut down at most once *)
-Fixpoint simple_walk (fly : bool) (nsh : nat) (h : list spev) : list tok :=
+(* SPEC on the history: Export is never invoked while a previous Export is still running; exporter shut down at most once;
+   the batch a thread hands to the exporter is exactly the one record that thread is ending (cur: thread -> id of its OnEnd) *)
+Fixpoint cur_get (t : nat) (l : list (nat * nat)) : option nat :=
+  match l with [] => None | (t', v) :: l' => if Nat.eqb t t' then Some v else cur_get t l' end.
+Definition cur_set (t v : nat) (l : list (nat * nat)) : list (nat * nat) :=
+  (t, v) :: filter (fun x => negb (Nat.eqb (fst x) t)) l.
+Definition ids_are (ids : list nat) (o : option nat) : bool :=
+  match ids, o with [i], Some v => Nat.eqb i v | _, _ => false end.
+Fixpoint simple_walk_cur (cur : list (nat * nat)) (fly : bool) (nsh : nat) (h : list spev) : list tok :=
   match h with
   | [] => []
-  | SPEv _ (SExpBegin ids) :: h' =>
-      check (negb fly) "export:overlap" ++ check (Nat.eqb (length ids) 1) "batch:not_single" ++ simple_walk true nsh h'
-  | SPEv _ (SExpEnd _) :: h' => check fly "export:end_without_begin" ++ simple_walk false nsh h'
-  | SPEv _ (SExpShut _) :: h' => check (Nat.eqb nsh 0) "exporter_shutdown:twice" ++ simple_walk fly (S nsh) h'
-  | SPBad :: h' => fail "obs:unknown_event" ++ simple_walk fly nsh h'
-  | _ :: h' => simple_walk fly nsh h'
+  | SPEv t (SCallOnEnd id) :: h' => simple_walk_cur (cur_set t id cur) fly nsh h'
+  | SPEv t (SExpBegin ids) :: h' =>
+      check (negb fly) "export:overlap" ++ check (Nat.eqb (length ids) 1) "batch:not_single" ++
+      check (ids_are ids (cur_get t cur)) "export:not_the_callers_record" ++ simple_walk_cur cur true nsh h'
+  | SPEv _ (SExpEnd _) :: h' => check fly "export:end_without_begin" ++ simple_walk_cur cur false nsh h'
+  | SPEv _ (SExpShut _) :: h' => check (Nat.eqb nsh 0) "exporter_shutdown:twice" ++ simple_walk_cur cur fly (S nsh) h'
+  | SPBad :: h' => fail "obs:unknown_event" ++ simple_walk_cur cur fly nsh h'
+  | _ :: h' => simple_walk_cur cur fly nsh h'
   end.
+Definition simple_walk (fly : bool) (nsh : nat) (h : list spev) : list tok := simple_walk_cur [] fly nsh h.
 Definition simple_spec (tr : list tok) : list tok := simple_walk false 0 (sparse_trace tr).
